@@ -92,7 +92,7 @@ class Runner(RuleBasedStateMachine):
         flags=st.sampled_from(["", "", "-c", "-r", "-r", "-c -r", "-x", "-d", "-c extra", "-r extra", "-o", "--help", "-cr"]),
         dfile=st.sampled_from([None, None, "/data/a.root", "root://host//b.root", "/data/with space.root", "reldata/c.root"]),
         odir=st.sampled_from([None, None, "/results2", "/results/renamed.root", "/out2", "relout"]),
-        fault=st.sampled_from([None, None, None, "setup", "build0", "build1", "job", "sudo", "convert", "copy"]),
+        fault=st.sampled_from([None, None, None, "setup", "build0", "build1", "job", "sudo", "convert", "copy", "job-silent"]),
     )
     def invoke_rule(self, flags, dfile, odir, fault):
         self.invoke(flags, dfile, odir, fault)
@@ -109,12 +109,17 @@ class Runner(RuleBasedStateMachine):
         stray = (not bad_flag) and any(a == "extra" for a in args)
         compile_ = not any(a in ("-r", "-cr") for a in args) if not (bad_flag or stray) else False
         run = not any(a in ("-c", "-cr") for a in args) if not (bad_flag or stray) else False
+        # job-silent: the analysis job reports success but writes no output (nothing is delivered by this run: exit 0 is then impossible to justify)
+        silent = fault == "job-silent"
+        if silent:
+            fault = None
         tool = {None: None, "setup": SETUP[be], "build0": BUILD[be][0], "build1": BUILD[be][1], "job": JOB[be], "sudo": "sudo" if be == "atlas" else None,
                 "convert": "root" if be != "atlas" else None, "copy": "cp-final" if be == "atlas" else None}[fault]
-        rc, log, out = self.jail.invoke(args, plan=tool)
+        rc, log, out = self.jail.invoke(args, plan=(JOB[be] + ":silent") if silent else tool)
+        silent = silent and any(l.startswith("SILENT ") for l in log)
         n = self.jail.invocations
         rep = {"backend": be, "calib": self.calib, "history": self.history + [{"args": args, "fault": tool}]}
-        tools_run = [l.split(" ")[0] for l in log if not l.startswith(("JOB", "FAULT"))]
+        tools_run = [l.split(" ")[0] for l in log if not l.startswith(("JOB", "FAULT", "SILENT"))]
         jobs = [l for l in log if l.startswith("JOB ")]
         dest = odir or "/results"
         if not dest.startswith("/"):
@@ -159,6 +164,8 @@ class Runner(RuleBasedStateMachine):
                 exp_seq = seq
                 if not ok and compile_ and self.state == "fresh":
                     new_state = "partial"
+            if silent and ok is True:
+                ok = None  # the job produced nothing: failing is right, succeeding needs this run's output at the destination (checked below)
             # which tools exactly a script calls is its own business; the property constrains only:
             #  - the exit status and what is (not) delivered (checked below),
             #  - no job with -c, no build tool with -r (checked below),
@@ -200,7 +207,7 @@ class Runner(RuleBasedStateMachine):
     @rule(
         dfile=st.sampled_from([None, "/data/a.root", "/data/b.root", "root://host//b.root", "reldata/c.root"]),
         odir=st.sampled_from([None, "/results2", "/results/renamed.root", "/out2", "relout"]),
-        fault=st.sampled_from([None, "job", "job", "convert", "copy", "sudo", "setup", None]),
+        fault=st.sampled_from([None, "job", "job", "convert", "copy", "sudo", "setup", None, "job-silent", "job-silent"]),
     )
     def rerun(self, dfile, odir, fault):
         """run-only invocations against an existing build (where stale outputs and inputs of earlier runs lie around)"""
